@@ -32,6 +32,10 @@ axiom("cmp_two_one", vars=_V3, instances=_INST, props=["C04"],
       body="implies(wf2(p, q) and wf2(p, r) and acmp(c, p, q) == 2 and acmp(c, p, r) == 1, acmp(c, q, r) == 1)")
 axiom("cmp_eq_congr", vars=_V3, instances=_INST, props=["C04"],
       body="implies(wf2(p, q) and wf2(p, r) and seq_eq(p, q) and acmp(c, p, r) == 1, acmp(c, q, r) == 1)")
+axiom("cmp_cover_trans", vars=_V3, instances=_INST, props=["C04"],
+      body="implies(wf2(p, q) and wf2(r, q) and acmp(c, p, q) == 2 and acmp(c, r, q) == 1, acmp(c, p, r) == 2)")
+axiom("cmp_cover_eq", vars=_V3, instances=_INST, props=["C04"],
+      body="implies(wf2(p, q) and wf2(r, q) and seq_eq(p, q) and acmp(c, r, q) == 1, acmp(c, p, r) == 2)")
 _CMP = ["cmp_range", "cmp_zero_sym", "cmp_one_two", "cmp_irrefl", "cmp_trans", "cmp_two_one", "cmp_eq_congr"]
 
 define("cI", ["a", "x", "s"], "acmp(a._dominance, x.costs_signed, s.costs_signed)")
@@ -45,12 +49,15 @@ define("arch_wf", ["a", "x"],
        "forall(lambda i: valid(a._contents[i]) and wfI(x, a._contents[i]) and "
        "cmp_ok(a._dominance, x.costs_signed, a._contents[i].costs_signed), 0, len(a._contents))")
 define("loses", ["a", "x", "s"], "cI(a, x, s) == 2 or (cI(a, x, s) == 0 and eqI(x, s))")
+# history-level statement (C04): `offered` is an arbitrary (uninterpreted) set of individuals -- everything ever offered.
+# covered(a, o): o is a member, or is dominated by / equal to / in the box of a current member.
+declare_fun("offered", [("o", "Ref[Individual]")], "Bool")
+define("covered", ["a", "o"],
+       "exists(lambda i: a._contents[i] is o or loses(a, o, a._contents[i]), 0, len(a._contents))")
 
-contract("artap.archive:Archive.add", props=["C04", "C18"], axioms=["cmp_range", "cmp_zero_sym", "cmp_two_one", "cmp_eq_congr"],
-         types={"individual": "Ref[Individual]", "result": "Bool"},
-         locals={"is_dominated": "Bool", "is_contained": "Bool"},
-         requires=["arch_inv(self)", "arch_wf(self, individual)", "len(individual.costs_signed) >= 2"],
-         ensures=[
+_ADD_AX = ["cmp_range", "cmp_zero_sym", "cmp_one_two", "cmp_two_one", "cmp_eq_congr", "cmp_cover_trans", "cmp_cover_eq"]
+_ADD_REQ0 = ["arch_inv(self)", "arch_wf(self, individual)", "len(individual.costs_signed) >= 2"]
+_ADD_ENS = [
              "result == (not exists(lambda j: loses(self, individual, old(self._contents[j])), 0, old(len(self._contents))))",
              "implies(not result, unchanged(self._contents))",
              "implies(result, len(self._contents) >= 1 and self._contents[len(self._contents) - 1] is individual)",
@@ -59,8 +66,8 @@ contract("artap.archive:Archive.add", props=["C04", "C18"], axioms=["cmp_range",
              "implies(result, forall(lambda j: implies(cI(self, individual, old(self._contents[j])) != 1, "
              "exists(lambda i: self._contents[i] is old(self._contents[j]), 0, len(self._contents) - 1)), 0, old(len(self._contents))))",
              "arch_inv(self)",
-         ],
-         loops={1: [
+         ]
+_ADD_INV = [
              "stable(_it)", "_k <= len(_it)",
              "len(_it) == old(len(self._contents))",
              "forall(lambda j: _it[j] is old(self._contents[j]), 0, len(_it))",
@@ -78,5 +85,96 @@ contract("artap.archive:Archive.add", props=["C04", "C18"], axioms=["cmp_range",
              "forall(lambda i, j: implies(i != j, self._contents[i] is not self._contents[j]), "
              "(0, len(self._contents)), (0, len(self._contents)))",
              "not is_dominated and not is_contained",
-         ]},
+         ]
+_ADD_TYPES = {"individual": "Ref[Individual]", "result": "Bool"}
+_ADD_LOCALS = {"is_dominated": "Bool", "is_contained": "Bool"}
+contract("artap.archive:Archive.add", props=["C04", "C18"], axioms=_ADD_AX, types=_ADD_TYPES, locals=_ADD_LOCALS,
+         requires=_ADD_REQ0, ensures=_ADD_ENS, loops={1: _ADD_INV}, modifies=["list(self._contents)"])
+
+# history view of add (C04): for an ARBITRARY set `offered` of individuals that are all covered before the call, everything
+# in offered and the newcomer are covered afterwards.  By induction over the history (offered = everything offered so far)
+# the archive always covers every offered solution; together with arch_inv this is the statement of C04.
+contract("artap.archive:Archive.add#history", props=["C04"], axioms=_ADD_AX, types=_ADD_TYPES, locals=_ADD_LOCALS,
+         requires=_ADD_REQ0 + [
+             "forall(lambda o: implies(offered(o), valid(o) and len(o.costs_signed) == len(individual.costs_signed) "
+             "and covered(self, o)), 'Ref[Individual]')"],
+         ensures=["covered(self, individual)",
+                  "forall(lambda o: implies(offered(o), covered(self, o)), 'Ref[Individual]')"],
+         loops={1: _ADD_INV}, modifies=["list(self._contents)"])
+
+# ---- Archive.truncate: keeps the `size` members with the largest (smallest) value of the chosen feature ----------
+define("featv", ["x", "g"], "x.features[g]")
+define("distinct_members", ["a"],
+       "forall(lambda i, j: implies(i != j, a._contents[i] is not a._contents[j]), (0, len(a._contents)), (0, len(a._contents)))")
+contract("artap.archive:Archive.truncate", props=["C04", "C18"],
+         types={"size": "Int", "getter": "Str", "larger_preferred": "Bool"},
+         locals={"result": "List[Ref[Individual]]"},
+         requires=["size >= 0"],
+         ensures=[
+             "len(self._contents) == (size if size < old(len(self._contents)) else old(len(self._contents)))",
+             "forall(lambda i: exists(lambda j: self._contents[i] is old(self._contents[j]), 0, old(len(self._contents))), "
+             "0, len(self._contents))",
+             "implies(larger_preferred, forall(lambda i, j: implies(forall(lambda t: self._contents[t] is not old(self._contents[j]), "
+             "0, len(self._contents)), featv(old(self._contents[j]), getter) <= featv(self._contents[i], getter)), "
+             "(0, len(self._contents)), (0, old(len(self._contents)))))",
+             "implies(not larger_preferred, forall(lambda i, j: implies(forall(lambda t: self._contents[t] is not old(self._contents[j]), "
+             "0, len(self._contents)), featv(old(self._contents[j]), getter) >= featv(self._contents[i], getter)), "
+             "(0, len(self._contents)), (0, old(len(self._contents)))))",
+             "implies(old(distinct_members(self)), distinct_members(self))",
+             "implies(old(arch_inv(self)), arch_inv(self))",
+             "unchanged(old(self._contents))",
+         ],
+         modifies=["self._contents"], allocates=True)
+
+# ---- clients of add ------------------------------------------------------------------------------------------
+_ADD_REQ = ["arch_inv(self)", "arch_wf(self, individual)", "len(individual.costs_signed) >= 2"]
+contract("artap.archive:Archive.append", props=["C04", "C18"], axioms=["cmp_range"],
+         types={"individual": "Ref[Individual]"},
+         requires=_ADD_REQ,
+         ensures=["arch_inv(self)",
+                  "forall(lambda i: self._contents[i] is individual or "
+                  "exists(lambda j: self._contents[i] is old(self._contents[j]), 0, old(len(self._contents))), 0, len(self._contents))"],
          modifies=["list(self._contents)"])
+
+define("pool_wf", ["a", "xs"],
+       "forall(lambda i: valid(xs[i]) and len(xs[i].costs_signed) >= 2 and arch_wf(a, xs[i]), 0, len(xs)) and "
+       "forall(lambda i, j: wfI(xs[i], xs[j]) and cmp_ok(a._dominance, xs[i].costs_signed, xs[j].costs_signed), "
+       "(0, len(xs)), (0, len(xs)))")
+define("from_old_or", ["a", "xs", "n"],
+       "forall(lambda i: exists(lambda t: a._contents[i] is xs[t], 0, n) or "
+       "exists(lambda j: a._contents[i] is old(a._contents[j]), 0, old(len(a._contents))), 0, len(a._contents))")
+contract("artap.archive:Archive.__iadd__", props=["C04", "C18"],
+         types={"other": "List[Ref[Individual]]", "result": "Ref[Archive]"},
+         requires=["arch_inv(self)", "pool_wf(self, other)", "other is not self._contents"],
+         ensures=["result is self", "arch_inv(self)", "from_old_or(self, other, len(other))", "unchanged(other)"],
+         loops={1: ["arch_inv(self)", "stable(other)", "_k <= len(other)",
+                    "forall(lambda t: arch_wf(self, other[t]), _k, len(other))",
+                    "from_old_or(self, other, _k)"]},
+         modifies=["list(self._contents)"])
+
+contract("artap.archive:Archive.remove", props=["C04", "C20"],
+         types={"solution": "Ref[Individual]", "result": "Bool"},
+         requires=["forall(lambda i: valid(self._contents[i]) and len(self._contents[i].vector) == len(solution.vector), 0, len(self._contents))",
+                   "len(solution.vector) >= 1"],
+         ensures=["result == exists(lambda i: old(self._contents[i]) is solution or vec_close(old(self._contents[i]), solution), "
+                  "0, old(len(self._contents)))",
+                  "implies(not result, unchanged(self._contents))",
+                  "implies(result, len(self._contents) == old(len(self._contents)) - 1)",
+                  # the element that disappeared is equal to `solution` in every coordinate (C20 client lemma)
+                  "implies(result, exists(lambda r: (old(self._contents[r]) is solution or vec_close(old(self._contents[r]), solution)) and "
+                  "forall(lambda i: self._contents[i] is old(self._contents[i if i < r else i + 1]), 0, len(self._contents)), "
+                  "0, old(len(self._contents))))"],
+         modifies=["list(self._contents)"])
+
+
+# ---- order independence (C04): two archives (same comparator) that both satisfy the invariant and both cover the same
+# arbitrary set of offered solutions hold the same cost vectors (same boxes for the epsilon comparator).
+define("both_lose", ["a", "x", "y"], "loses(a, x, y) and loses(a, y, x)")
+lemma("archive_order_independent", props=["C04"], axioms=_CMP + ["cmp_cover_trans", "cmp_cover_eq"],
+      vars=[("a", "Ref[Archive]"), ("b", "Ref[Archive]"), ("n0", "Int"), ("i", "Int")],
+      hyps=["a._dominance is b._dominance", "arch_inv(a)", "arch_inv(b)", "n0 >= 2",
+            "forall(lambda t: offered(a._contents[t]), 0, len(a._contents))",
+            "forall(lambda t: offered(b._contents[t]), 0, len(b._contents))",
+            "forall(lambda o: implies(offered(o), len(o.costs_signed) == n0 and covered(a, o) and covered(b, o)), 'Ref[Individual]')",
+            "0 <= i and i < len(a._contents)"],
+      goal="exists(lambda j: b._contents[j] is a._contents[i] or both_lose(a, a._contents[i], b._contents[j]), 0, len(b._contents))")
